@@ -191,13 +191,15 @@ func (x *Exec) evalIdent(fr *frame, st *State, name string, opts *evalOpts) Valu
 			return t.Elems[k]
 		}
 	}
-	if v, ok := st.names[name]; ok {
-		return v
-	}
+	// a variable that lives in a memory cell (address taken, named result with defers, ...) is read from
+	// the cell: a remembered value would be stale after the cell is havocked at a loop head
 	if p, ok := st.names["&"+name]; ok {
 		if ptr, isP := p.(Ptr); isP {
 			return x.load(st, ptr)
 		}
+	}
+	if v, ok := st.names[name]; ok {
+		return v
 	}
 	if g, ok := x.ghosts[name]; ok {
 		return x.contents(st, g)
